@@ -15,8 +15,7 @@ Definition C06_sound_full : Prop :=
     2 * n + 1 <= k -> jvalid pm ds k s j = true.
 
 (* Soundness on the domain ty_ok / env_ok (= everything except the known findings; fixed tuples may
-   contain one Unpack[Tuple[T, ...]] or Unpack[fixed tuple] segment, deeper nestings of Unpack are covered
-   by the K6 theorems only): for every dialect (ref prefix),
+   contain an Unpack[...] segment per level, nested to any depth): for every dialect (ref prefix),
    all_refs mode, class table, type, value, admissible serialization j, all fuels. *)
 Theorem C06_sound_partial :
   forall (pm: string -> string -> bool),
@@ -134,3 +133,12 @@ Example C06_nonvacuous_unpack :
              jvalid pm_any [] 50 s (JArr [JInt 1; JStr "a"; JFlt "2.5"]) = true /\
              jvalid pm_any [] 50 s (JArr [JInt 1; JInt 2; JFlt "2.5"]) = false).
 Proof. exact nonvacuous_unpack. Qed.
+
+Example C06_nonvacuous_unpack_nested :
+  ty_ok 9 E0 false false t_unp_nest = true /\
+  enc_ok 9 E0 false false t_unp_nest (VList [VInt 1; VStr "a"; VFlt "2.5"; VFlt "0.5"; VBool true])
+         (JArr [JInt 1; JStr "a"; JFlt "2.5"; JFlt "0.5"; JBool true]) = true /\
+  exists s, schema_f E0 dl2020 false false 9 t_unp_nest = Some s /\
+            jvalid pm_any [] 50 s (JArr [JInt 1; JStr "a"; JFlt "2.5"; JFlt "0.5"; JBool true]) = true /\
+            jvalid pm_any [] 50 s (JArr [JInt 1; JBool true]) = false.
+Proof. exact nonvacuous_unpack_nested. Qed.
